@@ -35,6 +35,7 @@ type c07In struct {
 	collide bool
 	decoy   bool
 	empty   bool
+	otherNS bool
 }
 
 var c07Progs = []string{"bogus-type-same-id", "nothing", "reply-result", "reply-error", "reply-emptyns", "other-id", "get-same-id", "set-same-id", "msg-then-reply", "reply-then-msg", "nested-iq", "presence-then-error-reply", "message-same-id-ns", "presence-same-id-ns", "reply-result", "reply-error"}
@@ -112,6 +113,15 @@ func runC07(rc *RC) {
 			attrs = append(attrs, ` xmlns="urn:verif:nonza"`) // a foreign-namespace top-level element
 		} else if opts.WS {
 			attrs = append(attrs, ` xmlns="jabber:client"`)
+		} else if in.kind == "iq" && !opts.Comp && ch.Chance("workload", 1, 8) {
+			// an IQ that declares the other of the two core namespaces (jabber:client on a server-to-server stream and
+			// the other way round): the session still answers it, and to its sender
+			other := "jabber:server"
+			if opts.S2S {
+				other = "jabber:client"
+			}
+			attrs = append(attrs, ` xmlns="`+other+`"`)
+			in.otherNS = true
 		}
 		if in.typ != "" {
 			attrs = append(attrs, fmt.Sprintf(` type="%s"`, in.typ))
